@@ -148,12 +148,24 @@ pub fn run_sharded<F>(args: &Args, ncases: u64, nshards: usize, hang_prefix: &st
 where
   F: Fn(u64, &mut Acc, &Bracket) + Send + Sync + 'static,
 {
+  run_sharded_with(args, ncases, nshards, hang_prefix, None, f)
+}
+
+/// `leg`: Some((name, executable)) runs the shards in another build of this harness (e.g. the
+/// overflow-checked profile); the children see the name in VERIF_LEG.
+pub fn run_sharded_with<F>(args: &Args, ncases: u64, nshards: usize, hang_prefix: &str, leg: Option<(String, std::path::PathBuf)>, f: F) -> Acc
+where
+  F: Fn(u64, &mut Acc, &Bracket) + Send + Sync + 'static,
+{
   if let Some((from, to, outp)) = child_args(args) {
     child(from, to, &outp, hang_prefix, f);
     std::process::exit(0);
   }
-  let exe = std::env::current_exe().expect("current_exe");
-  let tmpdir = std::env::temp_dir().join(format!("vcheck-{}-{}", args.id, std::process::id()));
+  let (leg_name, exe) = match leg {
+    Some((n, e)) => (n, e),
+    None => (String::new(), std::env::current_exe().expect("current_exe")),
+  };
+  let tmpdir = std::env::temp_dir().join(format!("vcheck-{}-{}{}", args.id, std::process::id(), leg_name));
   let _ = std::fs::create_dir_all(&tmpdir);
   // replay: a single case, a single shard
   let (ncases, nshards, replay_from) = match crate::replay_index(args) {
@@ -170,6 +182,7 @@ where
         continue;
       }
       let exe = exe.clone();
+      let leg_name = leg_name.clone();
       let tmpdir = tmpdir.clone();
       let total = &total;
       s.spawn(move || {
@@ -189,6 +202,7 @@ where
             .arg("--shard-out")
             .arg(&outp)
             .env("VERIF_SEED", args.seed.to_string())
+            .env("VERIF_LEG", &leg_name)
             .env("VERIF_DOMAIN", (domain_base(&args.id) + k).to_string())
             .status();
           let parsed: Option<ShardOut> = std::fs::read_to_string(&outp).ok().and_then(|s| serde_json::from_str(&s).ok());
